@@ -41,6 +41,12 @@ CLAIMED["C02"] = dict(
    text="Generated texts whose non-space characters are all distinct are wrapped through Text.wrap and through console rendering at generated widths/justify/overflow/no_wrap/tab sizes; because each output character identifies its input offset, dropping, duplication, reordering, wrong styles and illegitimate word breaks are all decided exactly per case.",
    note="Unique non-space characters per case; padding and ellipsis exempt from the style clause; str.isspace() whitespace; tabs expand as str.expandtabs per line.",
    ref="5 C02")
+CLAIMED["C03"] = dict(
+   technique="Hypothesis property test with an independent SGR / OSC-8 stream interpreter as oracle, over print/control histories and ordered pairs of colour systems sharing Style objects",
+   level="exploration",
+   text="Generated print/control histories are written through consoles of two colour systems in sequence with shared Style objects; the emitted characters are decoded by a hand-written SGR/OSC-8 interpreter and compared per character (attributes, fg, bg after down-conversion, link), plus the no-escape / no-colour / no-control stream clauses and the no-leak final state.",
+   note="Down-conversion itself is trusted here (C18 checks it); segment text has no ESC/C0 controls; console 1000 cells wide so no wrapping.",
+   ref="5 C03")
 NOT_YET = {}
 props = [json.loads(l) for l in open(os.path.join(V, "properties.jsonl"))]
 checks = []
